@@ -548,17 +548,31 @@ Definition w2_word : eword := (None, Some [98;111;98], w2_expr).
 Definition w2_st : rsettings := mkrs None None None [114;111;111;116].
 Definition w2_exec : bytes := [101;120;101;99].
 
+Ltac c09_wf :=
+  repeat match goal with
+  | |- _ /\ _ => split
+  | |- Forall _ _ => cbv [denote_word rs_nums rt_nums flat_map map]; constructor
+  | |- sep_wf _ => unfold sep_wf
+  | |- rs_wf _ => unfold rs_wf
+  | |- rt_wf _ => unfold rt_wf; cbn [t_lo t_w t_hi rt_hi]
+  | |- True => exact I
+  | |- _ <> [] => discriminate
+  | |- @eq bool _ _ => vm_compute; reflexivity
+  | |- (_ < _)%nat => apply Nat.ltb_lt; vm_compute; reflexivity
+  | |- (_ <= _)%nat => apply Nat.leb_le; vm_compute; reflexivity
+  | |- (_ < _)%N => apply N.ltb_lt; vm_compute; reflexivity
+  | |- (_ <= _)%N => apply N.leb_le; vm_compute; reflexivity
+  end.
+
+Lemma w2_expr_wf : expr_wf w2_expr.
+Proof. unfold w2_expr. cbn [expr_wf word_wf]. c09_wf. Qed.
+
 Lemma w2_ok : eword_ok [w2_exec] w2_word.
 Proof.
   unfold eword_ok, w2_word. cbn [fst snd ofield_ok]. split; [exact I|]. split.
   { split; intros H; cbn in H; intuition discriminate. }
   split. { split; intros H; vm_compute in H; intuition discriminate. }
-  split; [|intros t H; discriminate].
-  cbn [expr_wf w2_expr word_wf]. repeat split; try (vm_compute; reflexivity); try discriminate.
-  all: try (unfold rs_wf; repeat split; try discriminate; try (vm_compute; lia);
-            repeat constructor; unfold rt_wf; cbn [t_lo t_w t_hi rt_hi]; repeat split; vm_compute; try reflexivity; try lia; try discriminate).
-  all: cbv [denote_word rs_nums rt_nums flat_map map first_pass_name rt_hi t_lo t_w t_hi count_up' N.to_nat];
-       repeat constructor; apply Nat.ltb_lt; vm_compute; reflexivity.
+  split; [exact w2_expr_wf|intros t H; discriminate].
 Qed.
 
 Theorem assign0_refuted :
